@@ -326,6 +326,9 @@ def gen_leaf(rng, kinds, o):
         if kk < 0.08:
             # a predicate over VALUES: mapped expressions (possibly falsy ones) as arguments
             return ["fpred", "f_vge", [gen_num(rng, kinds, o, allow_lit=False), gen_num(rng, kinds, o)]]
+        if kk < 0.16:
+            # a parameter with a default, given positionally or left out
+            return ["fpred", "f_gtd", [["v", vi, []]] + ([["lit", rng.randint(0, 3)]] if rng.random() < 0.7 else [])]
         if kk < 0.3:
             return ["fpred", "f_gt", [["v", vi, []], ["lit", rng.randint(0, 3)]]]
         if kk < 0.5:
